@@ -87,6 +87,14 @@ CLAIMED = {
         "dominates the call in both clients. RFC-4122 conformance of uuid4 is not claimed.",
         "Trusted: uuid.uuid4; proto-plus `in` semantics.",
         "DESIGN.md 4/C18"),
+    "C19": (
+        "construction-agreement rules (ast patterns) + regex-AST shape via re._parser + helper slot rules on client skeletons",
+        "Decides that arguments, format string and parsing regex derive from one PATH_ARG_RE over the first pattern, that the parsing "
+        "regex is '^' + a literal-preserving substitution + '$' whose groups are named lazy ANY+ repeats (with the `*` special "
+        "case), and that the emitted <name>_path / parse_<name>_path pair and its asyncio aliases are filled from exactly those "
+        "accessors. The inverse law over all segment values is a theorem about `re` and is not claimed.",
+        "Trusted: Python re semantics for the checked regex shape.",
+        "DESIGN.md 4/C19"),
 }
 
 NOT_APPLICABLE = {
